@@ -1,4 +1,5 @@
-(* C03 requests 300..329: writer text-path models, reference parsers, line comparison. *)
+(* C03 requests 301..329: writer text-path models (301-304), reference parsers (310-313), line comparison
+   (320 lenient = trim + white-space-run collapse, used for classification only; 323 strict = trim only: the property). *)
 From Coq Require Import List ZArith Bool.
 From PV Require Import lib.Sx lib.Str lib.Result.
 From PV Require Import model.TextNodes model.TextWrite.
@@ -60,21 +61,24 @@ Definition req_cues (f : str -> option (list (list str))) (arg : sx) : sx :=
 
 Definition dispatch (code : Z) (arg : sx) : option sx :=
   match code with
-  | 300 => Some (match arg with SS s => SS (xml_escape s) | _ => bad end)
   | 301 => Some (req_payload arg)
   | 302 => Some (req_doc vtt_doc arg)
   | 303 => Some (req_doc srt_doc arg)
   | 304 => Some (req_doc mdvd_doc arg)
-  | 305 => Some (req_doc srt_doc_prefix arg)
-  | 306 => Some (match arg with SS s => SS (vtt_encode s) | _ => bad end)
   | 310 => Some (req_parse arg)
   | 311 => Some (req_cues vtt_cue_lines arg)
   | 312 => Some (req_cues srt_cues arg)
   | 313 => Some (req_cues mdvd_cues arg)
-  | 314 => Some (match arg with SS s => SS (vtt_display s) | _ => bad end)
   | 320 => Some (match arg with
                  | SL [a; o] => match sx_strss a, sx_strss o with
                                 | Some a, Some o => of_bool (ok_cues a o)
+                                | _, _ => bad
+                                end
+                 | _ => bad
+                 end)
+  | 323 => Some (match arg with
+                 | SL [a; o] => match sx_strss a, sx_strss o with
+                                | Some a, Some o => of_bool (ok_cues_strict a o)
                                 | _, _ => bad
                                 end
                  | _ => bad
